@@ -10,7 +10,7 @@ from symv.named import N, Raised, Surprise
 
 META = {
     "level": "exploration",
-    "level_text": "Metamorphic monitoring: for each generated contractible pair the results of blockwise / fused / auto contraction, of align -> fuse contracted legs (insert and concat) -> contract the single pair, and of fusing free legs before vs after contracting must all be the same array: same rank, directions, fused-ness and sub-indices per leg, labels, and exactly equal values in the leaf layout; the direct result is also anchored to numpy (abelian) or to the graded model (fermionic) so that agreeing on something wrong is excluded. Seeded random exploration, 5 symmetries. Later additions: 3-7 fully populated contracted legs with dozens of aligned block pairs, ragged contracted legs, mixed classes, align_axes through function / method / autoray forms, in-place fuse of the aligned arrays must leave the operands intact.",
+    "level_text": "Metamorphic monitoring: for each generated contractible pair the results of blockwise / fused / auto contraction, of align -> fuse contracted legs (insert and concat) -> contract the single pair, and of fusing free legs before vs after contracting must all be the same array: same rank, directions, fused-ness and sub-indices per leg, labels, and exactly equal values in the leaf layout; the direct result is also anchored to numpy (abelian) or to the graded model (fermionic) so that agreeing on something wrong is excluded. Seeded random exploration, 5 symmetries. Later additions: 3-7 fully populated contracted legs with dozens of aligned block pairs, ragged contracted legs, mixed classes, align_axes through function / method / autoray forms, in-place fuse of the aligned arrays must leave the operands intact. Round 9: negative and list-typed axes passed to align_axes (ranks of the operands differ in half of these).",
     "technique": "runtime monitoring: metamorphic relations between routes + absolute reference-model anchor",
     "rule": (
         "one evaluation = one route result compared with the direct blockwise result (and the absolute reference). Routes per pair: modes blockwise/fused/auto; "
